@@ -502,6 +502,19 @@ def check_prototype(program, rep):
             if isinstance(v, (ast.GeneratorExp, ast.ListComp)) and len(
                     v.generators) == 1 and not v.generators[0].ifs:
                 gen = v
+            if isinstance(v, ast.Call) and dotted(v.func) in (
+                    'map', 'itertools.starmap', 'starmap') and v.args:
+                # the initialisers run user code: in a generator (PEP 479) a
+                # StopIteration escaping one becomes RuntimeError; map() lets
+                # it through, and list() / *unpacking take it for the end
+                rep.bad('C19.prototype', f.where, v,
+                        f'`{norm(v)[:60]}` builds the components inside '
+                        'map(): a StopIteration escaping an initialiser '
+                        '(e.g. `next()` on an exhausted supply) ends the '
+                        'iteration silently - create_entity(*prototype) '
+                        'builds a truncated entity instead of failing',
+                        line=v.lineno)
+                return
         if gen is not None:
             T = norm(gen.generators[0].target)
             order_ok = norm(gen.generators[0].iter) == 'self.component_types'
